@@ -7,7 +7,7 @@
 From Coq Require Import List NArith Bool.
 From NV Require Import Syntax.Token Syntax.Ast Syntax.StmtAst Syntax.StrEsc Syntax.Parser Syntax.Grammar
      Syntax.StrEscProofs Syntax.TypedPrinter Syntax.TypedPrinterProofs Syntax.FixedPoint
-     Syntax.TypeGrammar Syntax.StmtGrammar Syntax.DefEcho Syntax.Lexer Syntax.LexString Syntax.TypedPrinterSep Syntax.FixedPointNeg Syntax.FixedPointNeg2.
+     Syntax.TypeGrammar Syntax.StmtGrammar Syntax.DefEcho Syntax.Lexer Syntax.LexString Syntax.TypedPrinterSep Syntax.FixedPointNeg Syntax.FixedPointNeg2 Syntax.TypedPrinterSugar Syntax.FixedPointSugar.
 Import ListNotations.
 Local Open Scope N_scope.
 
@@ -103,6 +103,23 @@ Theorem C15_fixed_point_neg : forall (is_unit is_fn : str -> bool) (e : texpr),
   exists u, parse (pp e) = Ok [StExpr u] [] /\ pp (lift is_unit is_fn u) = pp e.
 Proof. exact echo_fixed_point_neg. Qed.
 Print Assumptions C15_fixed_point_neg.
+
+(* Temperature conversion functions in call syntax.  Since the repair of the echo the sugar forms
+   (`5 °C`, `x -> °C`) are printed only in plain positions (top level, call arguments, list / struct /
+   interpolation items, the left of `->`); as operands the functions are written as calls.
+   `okm true e` = no sugar-named one-argument call sits in a plain position (and no digit separators).
+   For these expressions the echo is read back as exactly the tree it was elaborated from, and the
+   echo is a fixed point (negative literals allowed). *)
+Theorem C15_roundtrip_exact_sugar : forall e : texpr,
+  printable_t e = true -> okm true e = true -> parse (pp e) = Ok [StExpr (erase e)] [].
+Proof. exact echo_roundtrip_exact_sugar. Qed.
+Print Assumptions C15_roundtrip_exact_sugar.
+
+Theorem C15_fixed_point_sugar : forall (is_unit is_fn : str -> bool) (e : texpr),
+  printable_t e = true -> okm true e = true -> consistent_n is_unit is_fn e = true ->
+  exists u, parse (pp e) = Ok [StExpr u] [] /\ pp (lift is_unit is_fn u) = pp e.
+Proof. exact echo_fixed_point_sugar. Qed.
+Print Assumptions C15_fixed_point_sugar.
 
 (* NOT PROVED (partial): (1) for the temperature sugar forms `reread e` equals `erase e` only up
    to numbat's elaboration of `x °C` / `x -> °C` (not modelled), and the fixed point is not proved
@@ -228,4 +245,15 @@ Example C15_ex_fixed_point_negative_literal :
   /\ pp e = [TIdent [120]; TPower; TLParen; TMinus; TNumber [49]; TRParen]%N
   /\ lift (fun _ => false) (fun _ => false) (erase e) = XBin Power (x_ 120) (XNeg (XScalar false [49]%N))
   /\ pp (lift (fun _ => false) (fun _ => false) (erase e)) = pp e.
+Proof. vm_compute. repeat split; reflexivity. Qed.
+
+(* -from_celsius(5) + celsius(3 K): the conversion functions are operands, hence echoed as calls; the
+   expression is outside exact_t but inside okm, and its echo is exact; from_celsius(5) alone is echoed
+   as the sugar form and is outside okm *)
+Example C15_ex_sugar_in_call_syntax :
+  let fc := XCall n_from_celsius [n_ 53] in
+  let e := XBin Add (XNeg fc) (XCall n_celsius [XBin Mul (n_ 51) (XUnit [75]%N)]) in
+  exact_t e = false /\ okm true e = true /\ printable_t e = true
+  /\ parse (pp e) = Ok [StExpr (erase e)] []
+  /\ okm true fc = false /\ okm false fc = true.
 Proof. vm_compute. repeat split; reflexivity. Qed.
